@@ -107,12 +107,12 @@ def DG(cell, degree, shape=()):
 
 def RT(cell, degree):
     cell = _cell(cell)
-    return Elem("RT", cell, degree, (cell.topological_dimension,), contravariant_piola, HDiv)
+    return Elem("RT", cell, degree, (cell.topological_dimension,), contravariant_piola, HDiv, subdegree=degree - 1)
 
 
 def N1curl(cell, degree):
     cell = _cell(cell)
-    return Elem("N1curl", cell, degree, (cell.topological_dimension,), covariant_piola, HCurl)
+    return Elem("N1curl", cell, degree, (cell.topological_dimension,), covariant_piola, HCurl, subdegree=degree - 1)
 
 
 def DGpiola(cell, degree):
